@@ -235,6 +235,13 @@ def rule_mut(ctx: Ctx) -> RuleResult:
                     atoms = flow.aliases(arg, at.id if at else None)
                     hits = _memo_call_atoms(ctx, f, atoms, memo_q)
                     n_calls += 1
+                    if hits and f.qualname in MUT_EXEMPT and t.module is f.module and t.name.startswith("_") \
+                            and _helper_only_maps(t, pname, MUT_EXEMPT[f.qualname][2]):
+                        ex = MUT_EXEMPT[f.qualname]
+                        ok, detail = conds.holds(ctx, ex[1])
+                        if ok:
+                            res.ok(f"{f.qualname} -> {t.short}({pname})", f"table: {ex[0]} [{ex[1]}: {detail}]")
+                            continue
                     if hits:
                         res.violation([f.qualname, norm(cs.node.func), pname, hits[0][1]],
                                       f"{f.short} passes the cached result of {hits[0][1]} as `{pname}` to {t.short}, which mutates "
@@ -242,6 +249,25 @@ def rule_mut(ctx: Ctx) -> RuleResult:
     res.ok(f"{n_sites} mutation sites on cache-owned values, {n_calls} argument hand-overs to mutating callees examined",
            "no unexempted mutation of a memoised result", nontrivial=False)
     return res
+
+
+def _helper_only_maps(t: FunctionInfo, pname: str, attrs) -> bool:
+    """every mutation the helper performs on that parameter is an item store whose value is looked up in the
+    configured mapping tables"""
+    flow = flow_of(t.node)
+    sites = [(node, obj, how) for node, obj, how in mutation_sites(t)
+             if any(a.kind == "param" and a.text == pname for a in flow.aliases(obj, flow.node_of(node).id if flow.node_of(node) else None))]
+    if not sites:
+        return False
+    for node, obj, how in sites:
+        if how != "item store":
+            return False
+        stored = getattr(_stmt_node(t, node), "value", None)
+        at = flow.node_of(node)
+        deps = flow.depends(stored, at.id if at else None) if stored is not None else set()
+        if not any(a.kind == "attr" and a.text.split(".")[-1] in attrs for a in deps):
+            return False
+    return True
 
 
 def rule_param_mut(ctx: Ctx) -> RuleResult:
@@ -252,6 +278,8 @@ def rule_param_mut(ctx: Ctx) -> RuleResult:
     for f in ctx.p.iter_functions(kinds=("library",)):
         if f.module.name == "spil.sid.read.finders.find_cache" or f.parent is not None:
             continue
+        if f.name.startswith("_") and not f.name.startswith("__"):
+            continue  # private helpers are judged through their public callers (their effect is propagated to them)
         muts = {p for p in pe.mutates.get(f.qualname, set()) if p not in ("self", "cls")}
         n += 1
         for p in sorted(muts):
@@ -260,7 +288,7 @@ def rule_param_mut(ctx: Ctx) -> RuleResult:
                 continue
             res.violation([f.qualname, p], f"{f.short} mutates its parameter `{p}` in place: the caller's object (a Sid's fields, a cached "
                                            f"list, a configuration table) changes under it", f.relpath, f.node.lineno)
-    res.floor(n, 100, "library functions examined for parameter mutation")
+    res.floor(n, 80, "library functions examined for parameter mutation")
     res.ok(f"{n} library functions", "no undeclared in-place mutation of a parameter", nontrivial=False)
     return res
 
@@ -374,7 +402,7 @@ def rule_init(ctx: Ctx) -> RuleResult:
     res.floor(stores, 3, "stores to _string/_type/_fields")
     # _init call sites
     sites = ctx.cg.callers.get(init.qualname, [])
-    res.floor(len(sites), 5, "_init call sites")
+    res.floor(len(sites), 1, "_init call sites")
     for cs in sites:
         f = cs.caller
         site = f"{f.qualname}: `{norm(cs.node)[:80]}`"
@@ -470,96 +498,136 @@ def _callee_name(ctx: Ctx, f: FunctionInfo, call: Optional[ast.Call]) -> str:
     return dotted(call.func) or ""
 
 
-def rule_triple(ctx: Ctx) -> RuleResult:
-    """At every _init call the (string, type, fields) triple comes from one resolver operation."""
-    res = RuleResult("R-TRIPLE")
+def _init_sites(ctx: Ctx):
+    """(function, call node, {'string','type','fields' -> expr}) for every place where a Sid is initialised: direct
+    _init calls, and calls of a private factory helper that only forwards its own parameters to _init"""
     init = ctx.p.function("spil.sid.sid.TypedSid._init")
-    sites = [cs for cs in ctx.cg.callers.get(init.qualname, []) if cs.caller.module.name == "spil.sid.core.sid_factory"]
-    res.floor(len(sites), 5, "_init call sites in the factory")
+    out = []
+    for cs in ctx.cg.callers.get(init.qualname, []):
+        f = cs.caller
+        if f.module.name != "spil.sid.core.sid_factory":
+            continue
+        args = dict(bind_args(init, cs.node))
+        forwards = args and all(isinstance(v, ast.Name) and v.id in f.params for v in args.values()) and f.name.startswith("_")
+        if forwards:
+            flow = flow_of(f.node)
+            at = flow.node_of(cs.node)
+            if all(all(d.kind == "param" for d in flow.defs_reaching(at.id, v.id)) for v in args.values()):
+                for hs in ctx.cg.callers.get(f.qualname, []):
+                    if not isinstance(hs.node, ast.Call):
+                        continue
+                    hargs = dict(bind_args(f, hs.node))
+                    mapped = {k: hargs.get(v.id) for k, v in args.items()}
+                    if all(x is not None for x in mapped.values()):
+                        out.append((hs.caller, hs.node, mapped))
+                continue
+        out.append((f, cs.node, args))
+    return out
+
+
+def rule_triple(ctx: Ctx) -> RuleResult:
+    """At every place where a Sid is initialised the (string, type, fields) triple comes from one resolver operation."""
+    res = RuleResult("R-TRIPLE")
+    sites = _init_sites(ctx)
+    res.floor(len(sites), 3, "Sid initialisation sites in the factory")
     S2D = "spil.sid.core.sid_resolver.sid_to_dict"
     D2S = "spil.sid.core.sid_resolver.dict_to_sid"
     AQ = "spil.sid.core.query_helper.apply_query"
     P2D = "spil.sid.pathops.fs_resolver.path_to_dict"
-    for cs in sites:
-        f = cs.caller
+    for f, node, args in sites:
         flow = flow_of(f.node)
-        at = flow.node_of(cs.node)
-        args = dict(bind_args(init, cs.node))
-        site = f"{f.qualname}: `{norm(cs.node)[:90]}`"
+        cfg = cfg_of(f.node)
+        at = flow.node_of(node)
+        site = f"{f.qualname}: `{norm(node)[:90]}`"
         if not args:
             res.ok(site, "the empty instance: no string, no type, no fields", nontrivial=False)
             continue
         if set(args) != {"string", "type", "fields"}:
-            res.violation([f.qualname, norm(cs.node), "partial triple"], f"{f.short}: _init is given {sorted(args)} only", f.relpath, cs.lineno)
+            res.violation([f.qualname, norm(node), "partial triple"], f"{f.short}: the Sid is initialised with {sorted(args)} only", f.relpath, node.lineno)
             continue
-        ps = _producer(flow, f, args["string"], at.id)
-        pt = _producer(flow, f, args["type"], at.id)
-        pf = _producer(flow, f, args["fields"], at.id)
-        names = {k: _callee_name(ctx, f, p[1]) for k, p in (("string", ps), ("type", pt), ("fields", pf))}
+        S, T, F = args["string"], args["type"], args["fields"]
 
         def bad(msg):
-            res.violation([f.qualname, norm(cs.node), "incoherent triple"], f"{f.short}: {msg} (`{norm(cs.node)[:100]}`)", f.relpath, cs.lineno)
+            res.violation([f.qualname, norm(node), "incoherent triple"], f"{f.short}: {msg} (`{norm(node)[:100]}`)", f.relpath, node.lineno)
 
-        # the fields argument must never be (an alias of) a caller-supplied dictionary
-        al = flow.aliases(args["fields"], at.id)
-        if any(a.kind == "param" for a in al):
-            bad("the Sid keeps the caller's dictionary as its fields (key order and later mutations of that dictionary leak "
-                "into the Sid)")
+        if any(a.kind == "param" for a in flow.aliases(F, at.id)):
+            bad("the Sid keeps the caller's dictionary as its fields (key order and later mutations of that dictionary leak into the Sid)")
             continue
-        # P2: all three unpacked from one apply_query call
-        if names["fields"] == AQ and pf[0] == "unpack" and ps[1] is pf[1] and pt[1] is pf[1] and (ps[2], pt[2], pf[2]) == (0, 1, 2):
-            res.ok(site, "string, type and fields are the triple returned by apply_query")
+        if not all(isinstance(x, ast.Name) for x in (S, T, F)):
+            bad("string / type / fields are not plain local values produced by the resolvers")
             continue
-        # P1 over several reaching definitions (if/else branches that each call sid_to_dict)
-        if pf[0] == "multi" and pt[0] == "multi":
-            fdefs, tdefs = pf[3], pt[3]
-            calls_f = [d.value for d in fdefs if d.kind == "unpack" and d.index == 1 and isinstance(d.value, ast.Call)]
-            calls_t = [d.value for d in tdefs if d.kind == "unpack" and d.index == 0 and isinstance(d.value, ast.Call)]
-            cfg = cfg_of(f.node)
-            if len(calls_f) == len(fdefs) and {id(c) for c in calls_f} == {id(c) for c in calls_t} and len(calls_t) == len(tdefs) \
-                    and all(_callee_name(ctx, f, c) == S2D for c in calls_f):
-                okall = True
-                for c in calls_f:
-                    a0 = c.args[0] if c.args else None
-                    cn = flow.node_of(c)
-                    if a0 is None or norm(a0) != norm(args["string"]) or cn is None or _redefined_between(flow, cfg, a0, cn.id, at.id):
-                        okall = False
-                if okall:
-                    res.ok(site, f"on each of the {len(calls_f)} branches type and fields are the pair sid_to_dict returned for the "
-                                 f"stored string")
+        dS, dT, dF = (flow.defs_reaching(at.id, x.id) for x in (S, T, F))
+        explained_S, explained_T = set(), set()
+        ok = True
+        why = []
+        kinds = []
+        for d in dF:
+            call = d.value if isinstance(d.value, ast.Call) else None
+            callee = _callee_name(ctx, f, call)
+            if d.kind == "unpack" and callee == AQ and d.index == 2:
+                s_ = [x for x in dS if x.value is call and x.index == 0]
+                t_ = [x for x in dT if x.value is call and x.index == 1]
+                if s_ and t_:
+                    explained_S |= set(s_)
+                    explained_T |= set(t_)
+                    kinds.append("the triple returned by apply_query")
                     continue
-                bad("the fields were resolved from a different string than the one stored")
-                continue
-        # P1: (type, fields) = sid_to_dict(<string>[, type])
-        if names["fields"] == S2D and pf[0] == "unpack" and pf[2] == 1:
-            call = pf[1]
-            a0 = call.args[0] if call.args else None
-            if a0 is None or norm(a0) != norm(args["string"]) or _redefined_between(flow, cfg_of(f.node), a0, flow.node_of(call).id, at.id):
-                bad("the fields were resolved from a different string than the one stored")
-                continue
-            if pt[0] == "unpack" and pt[1] is call and pt[2] == 0:
-                res.ok(site, "type and fields are the pair sid_to_dict returned for the stored string")
-                continue
-            # type forced: must be the very type handed to sid_to_dict
-            if len(call.args) >= 2 and norm(call.args[1]) == norm(args["type"]) and _same_value(
-                    flow, call.args[1], flow.node_of(call).id, args["type"], at.id):
-                # and the string must have been formatted from that type
-                if names["string"] == D2S and len(ps[1].args) >= 2 and norm(ps[1].args[1]) == norm(args["type"]):
-                    res.ok(site, "string = dict_to_sid(data, T); fields = sid_to_dict(string, T)[1]; type = T")
+                ok = False
+                why.append("fields come from apply_query but string / type do not come from the same call")
+            elif d.kind == "unpack" and callee == S2D and d.index == 1:
+                a0 = call.args[0] if call.args else None
+                cn = flow.node_of(call)
+                if not (isinstance(a0, ast.Name) and a0.id == S.id):
+                    ok = False
+                    why.append("the fields were resolved from a different string than the one stored")
                     continue
-                bad("forced type without a string formatted by that type")
-                continue
-            bad("the fields were resolved without the type that is stored (natural typing may pick another template)")
-            continue
-        # P4: (type, fields) = path_to_dict(...); string = dict_to_sid(fields, type)
-        if names["fields"] == P2D and pf[0] == "unpack" and pf[2] == 1 and pt[0] == "unpack" and pt[1] is pf[1] and pt[2] == 0:
-            if names["string"] == D2S and len(ps[1].args) >= 2 and norm(ps[1].args[0]) == norm(args["fields"]) \
-                    and norm(ps[1].args[1]) == norm(args["type"]):
-                res.ok(site, "(type, fields) = path_to_dict(path); string = dict_to_sid(fields, type)")
-                continue
-            bad("string is not formatted from the resolved (fields, type)")
-            continue
-        bad(f"string / type / fields come from unrelated producers ({names})")
+                # the string value that was resolved is the one stored, unless a later statement replaces string and
+                # fields together (the apply_query tuple)
+                resolved_defs = set(flow.defs_reaching(cn.id, a0.id))
+                for x in dS:
+                    if x in resolved_defs:
+                        explained_S.add(x)
+                t_ = [x for x in dT if x.value is call and x.index == 0]
+                forced = len(call.args) >= 2 and isinstance(call.args[1], ast.Name) and call.args[1].id == T.id
+                if t_:
+                    explained_T |= set(t_)
+                    kinds.append("(type, fields) = sid_to_dict(string[, type])")
+                elif forced:
+                    tdefs_at_call = set(flow.defs_reaching(cn.id, T.id))
+                    explained_T |= {x for x in dT if x in tdefs_at_call}
+                    # the string must have been formatted by that very type
+                    fmt_ok = all(x.kind == "assign" and isinstance(x.value, ast.Call) and _callee_name(ctx, f, x.value) == D2S
+                                 and len(x.value.args) >= 2 and norm(x.value.args[1]) == T.id for x in dS if x in resolved_defs)
+                    if fmt_ok:
+                        kinds.append("string = dict_to_sid(data, T); fields = sid_to_dict(string, T)[1]; type = T")
+                    else:
+                        ok = False
+                        why.append("forced type without a string formatted by that type")
+                else:
+                    ok = False
+                    why.append("the fields were resolved without the type that is stored (natural typing may pick another template)")
+            elif d.kind == "unpack" and callee == P2D and d.index == 1:
+                t_ = [x for x in dT if x.value is call and x.index == 0]
+                s_ok = [x for x in dS if x.kind == "assign" and isinstance(x.value, ast.Call) and _callee_name(ctx, f, x.value) == D2S
+                        and len(x.value.args) >= 2 and norm(x.value.args[0]) == F.id and norm(x.value.args[1]) == T.id]
+                if t_ and s_ok:
+                    explained_T |= set(t_)
+                    explained_S |= set(s_ok)
+                    kinds.append("(type, fields) = path_to_dict(path); string = dict_to_sid(fields, type)")
+                else:
+                    ok = False
+                    why.append("string is not formatted from the resolved (fields, type)")
+            else:
+                ok = False
+                why.append(f"fields come from `{norm(d.value)[:40] if d.value is not None else d.kind}`, not from a resolver")
+        if ok and (set(dS) - explained_S or set(dT) - explained_T):
+            ok = False
+            stray = [norm(x.value)[:40] if x.value is not None else x.kind for x in list(set(dS) - explained_S) + list(set(dT) - explained_T)]
+            why.append(f"string / type can also come from {stray}, unrelated to the call that produced the fields")
+        if ok and kinds:
+            res.ok(site, "; or ".join(dict.fromkeys(kinds)))
+        else:
+            bad("; ".join(dict.fromkeys(why)) or "string / type / fields come from unrelated producers")
     return res
 
 
